@@ -23,6 +23,21 @@ def gen_req(rnd, tier):
             "gomaxprocs": [1, 2, 4, 16]}
 
 
+def gen_div_req(rnd, tier):
+    """processors that divide with the pipelined divp (two ticks per division; never by zero): outside the Coq simulator model, so only
+    the comparisons between runs apply"""
+    nproc = rnd.choice([2, 3])
+    rsize = rnd.choice([8, 16])
+    procs = []
+    for p in range(nproc):
+        prog = ["rset r0 %d" % rnd.randrange(100, 250), "rset r1 %d" % rnd.randrange(2, 9), "divp r0 r1", "r2o r0 o0", "inc r0", "inc r1", "divp r0 r1",
+                "r2o r0 o0", "j 2"]
+        procs.append({"arch": {"R": 1, "N": 0, "M": 1, "L": 0, "O": 4, "ops": ["divp", "inc", "j", "nop", "r2o", "rset"], "mode": "ha", "rsize": rsize}, "prog": prog})
+    spec = {"rsize": rsize, "procs": procs, "inputs": 0, "outputs": nproc, "bonds": [["o%d" % p, "p%do0" % p] for p in range(nproc)]}
+    return {"sim": {"bm": spec, "ticks": 40, "env": [], "showpc": False}, "perms": 8 if tier == "quick" else 40, "conc": 4 if tier == "quick" else 8,
+            "seed": rnd.randrange(1 << 30), "gomaxprocs": [1, 2, 4, 16], "nomodel": True}
+
+
 def run(res, a):
     failed = C.proof_part(res, "C09", trusted=[
         "Isa/Sim.v + Net/Tick.v: hand-written model of procbuilder.VM.Step / bondmachine.VM.Step, tied by per-tick full-state comparison",
@@ -31,7 +46,7 @@ def run(res, a):
     C.build_harness()
     rnd = random.Random(a.seed)
     n = 12 if a.tier == "quick" else 80
-    reqs = [gen_req(rnd, a.tier) for _ in range(n)]
+    reqs = [gen_req(rnd, a.tier) for _ in range(n)] + [gen_div_req(rnd, a.tier) for _ in range(2 if a.tier == "quick" else 10)]
     if a.replay:
         reqs = [json.load(open(a.replay))["replay"]["request"]]
     out = C.jsonl(C.sh([C.BMH, "c09"], input="".join(json.dumps(r) + "\n" for r in reqs), timeout=3000).stdout)
@@ -52,7 +67,8 @@ def run(res, a):
             if t >= 0:
                 viol.append(("state or step report after tick %d differs when %d simulations of the machine run concurrently" % (t, q["conc"]), q))
                 break
-        pairs.append((q["sim"], r["base"]))
+        if not q.get("nomodel"):
+            pairs.append((q["sim"], r["base"]))
     # the report of a complete single-shot simulation must not depend on the run either (output order, values)
     rep_reqs = []
     for k in range(3 if a.tier == "quick" else 12):
@@ -103,6 +119,36 @@ def run(res, a):
             elif len(sq.get("distinct") or []) != 1 or (cq.get("distinct") or []) != sq["distinct"]:
                 viol.append(("single-shot simulations with the same opcode delays give different reports: sequential %s, sixteen concurrent callers %s"
                              % (sq.get("distinct"), (cq.get("distinct") or [])[:3]), {"sim": dl_reqs[j + 1]}))
+    # stimuli that collide: two periodic set rules on one input; whatever order the tool gives them, it must be the same on every run
+    import os, shutil, subprocess, tempfile
+    import c07
+    c07.build_tools()
+    work = tempfile.mkdtemp(prefix="verif-c09-")
+    try:
+        for k in range(2 if a.tier == "quick" else 8):
+            p1, p2 = rnd.sample([2, 3, 4, 5], 2)
+            v1, v2 = rnd.sample(range(1, 200), 2)
+            spec = {"rsize": 8, "procs": [{"arch": {"R": 1, "N": 1, "M": 1, "L": 0, "O": 2, "ops": ["i2r", "j", "nop", "r2o"], "mode": "ha", "rsize": 8},
+                                            "prog": ["i2r r0 i0", "r2o r0 o0", "j 0"]}], "inputs": 1, "outputs": 1, "bonds": [["p0i0", "i0"], ["o0", "p0o0"]]}
+            saved = C.jsonl(C.sh([C.BMH, "c11", "save"], input=json.dumps({"bm": spec}) + "\n").stdout)[0]
+            d = os.path.join(work, "m%d" % k)
+            os.mkdir(d)
+            open(os.path.join(d, "bm.json"), "w").write(saved["json"])
+            sb = {"Rules": [{"Timec": 2, "Tick": p1, "Action": 0, "Object": "i0", "Extra": str(v1), "Suspended": False},
+                            {"Timec": 2, "Tick": p2, "Action": 0, "Object": "i0", "Extra": str(v2), "Suspended": False},
+                            {"Timec": 1, "Tick": 0, "Action": 3, "Object": "show_io_post", "Extra": "", "Suspended": False}]}
+            open(os.path.join(d, "sb.json"), "w").write(json.dumps(sb))
+            outs = set()
+            for rep_ in range(10):
+                pr = subprocess.run([c07.tool("bondmachine"), "-bondmachine-file", "bm.json", "-sim", "-simbox-file", "sb.json", "-sim-interactions", "14"],
+                                    cwd=d, env=dict(C.GOENV, GOMAXPROCS=str([1, 2, 4, 16][rep_ % 4])), stdout=subprocess.PIPE, stderr=subprocess.STDOUT, text=True, timeout=120)
+                outs.add(pr.stdout)
+            res.count_case({"periodic": [p1, v1, p2, v2]}, nontrivial=True)
+            if len(outs) > 1:
+                viol.append(("ten runs of one simulation with the rules relative:%d:set:i0:%d and relative:%d:set:i0:%d print %d different traces"
+                             % (p1, v1, p2, v2, len(outs)), {"sim": {"bm": spec, "rules": sb}}))
+    finally:
+        shutil.rmtree(work, ignore_errors=True)
     bad, compared = simlib.model_mismatches("C09", pairs)
     race = None
     if a.tier == "quick" and not viol:
